@@ -169,7 +169,8 @@ func (r *Runtime) arrayproto_pop(call FunctionCall) Value {
 func (r *Runtime) pushToStringStack(o *Object) bool {
 	// Check for circular reference in the toString stack
 	for _, obj := range r.toStringStack {
-		if o == obj {
+		// wrappers of Go values are created on every access: compare what they wrap (equal), not only the wrappers
+		if o == obj || o.self.equal(obj.self) {
 			// Circular reference detected
 			return true
 		}
